@@ -26,7 +26,9 @@ RULE = ('case = one (position, name) pair [every $-name of the MongoDB 5.0 vocab
         'code\'s own tables, near-miss and seeded random names, at each of 16 syntactic positions; '
         'probed with several argument shapes and documents] or one (method, option, opt-out '
         'setting) triple [every public Collection/Database/Cursor/bulk method x each of '
-        'session/collation/array_filters/let/hint its signature accepts]; non-trivial = the '
+        'session/collation/array_filters/let/hint its signature accepts] or one (method, option '
+        'A, option B, A opted out?) tuple [both options present, B never opted out, every '
+        'ordered pair of distinct options the method accepts]; non-trivial = the '
         'probing calls reached the dispatching function of the position (counted by wrapping '
         '_Filterer.apply, _Parser.parse, process_pipeline, _accumulate_group, '
         'Collection._apply_update), resp. the method runs without the option so that the '
@@ -74,15 +76,17 @@ def regenerate(ctx):
     """probe the current code, rewrite lean/Generated/*; keep the results for run()"""
     T, entries, meta = extract_vocab.probe_vocab(ctx.seed)
     opts = extract_options.probe_options()
+    pairs = extract_options.probe_pairs(opts)
     kpos, kpairs, ksilent, koptout = known_lists()
     changed = []
     for fname, text in (
             ('Tables.lean', gen_c20_lean.emit_tables(T)),
             ('Vocab.lean', gen_c20_lean.emit_vocab(T, entries, kpos, kpairs)),
-            ('Options.lean', gen_c20_lean.emit_options(opts, ksilent, koptout))):
+            ('Options.lean', gen_c20_lean.emit_options(opts, ksilent, koptout, pairs))):
         if gen_c20_lean.write_if_changed(os.path.join(GEN, fname), text):
             changed.append(fname)
-    ctx.c20 = {'T': T, 'entries': entries, 'meta': meta, 'opts': opts, 'changed': changed}
+    ctx.c20 = {'T': T, 'entries': entries, 'meta': meta, 'opts': opts, 'pairs': pairs,
+               'changed': changed}
     return ctx.c20
 
 
@@ -172,6 +176,36 @@ def judge_options(ctx, opts, ksilent, koptout):
     return bad
 
 
+def pair_replay(e, kind):
+    return {'kind': kind, 'what': 'option-pair', 'cls': e['cls'], 'method': e['method'],
+            'a': e['a'], 'b': e['b'], 'a_opted_out': e['aOptedOut'], 'observed': e['disp'],
+            'python': 'import mongomock; db = mongomock.MongoClient().db  # fixture: '
+                      'harness/extract_options.fixture()\n' + e['call'],
+            'call': e['call']}
+
+
+def judge_pairs(ctx, pairs, ksilent):
+    """a relevant, not-opted-out option B is rejected whatever option A accompanies it"""
+    bad = []
+    for e in pairs:
+        if e['disp'] != 'accepted' or not (e['b'] != 'hint' or e['write']):
+            continue
+        key = (e['cls'], e['method'], e['b'])
+        if key in ksilent:
+            fid = 'silent-option:%s.%s:%s' % key
+            ctx.known_seen[fid] = ctx.known_seen.get(fid, 0) + 1
+            continue
+        bad.append(e)
+        if ctx.too_many():
+            continue
+        ctx.violation(pair_replay(
+            e, 'option %s is dropped silently when it comes together with option %s%s: the call '
+               'succeeds although %s is not implemented and the caller has not opted out of it'
+               % (e['b'], e['a'], ' (opted out)' if e['aOptedOut'] else '', e['b'])),
+            rank=len(e['call']) + (0 if e['cls'] == 'Collection' else 200))
+    return bad
+
+
 def model_lines(pairs):
     return ['c20 %s %d' % (pos, gen_c20_lean.code_of(name)) for pos, name in pairs]
 
@@ -240,6 +274,8 @@ def run(ctx, proof, driver_ok):
     kpos, kpairs, ksilent, koptout = known_lists()
     bad_vocab = judge_vocab(ctx, entries, kpos, kpairs)
     bad_opts = judge_options(ctx, opts, ksilent, koptout)
+    pairs = st.get('pairs') or []
+    bad_pairs = judge_pairs(ctx, pairs, ksilent)
     switch_failures, switch_checks = extract_options.check_feature_switches()
     for msg in switch_failures:
         ctx.violation({'kind': 'not_implemented.py: the opt-out switch does not do what it says',
@@ -301,6 +337,9 @@ def run(ctx, proof, driver_ok):
         if e['reached']:
             nontrivial.add(common.case_hash(['o', e['cls'], e['method'], e['option'],
                                              e['optedOut']]))
+    for e in pairs:
+        nontrivial.add(common.case_hash(['p', e['cls'], e['method'], e['a'], e['b'],
+                                         e['aOptedOut']]))
     ohist = collections.Counter(e['disp'] for e in opts)
     samples = []
     for pos, name in (('queryTop', '$not'), ('queryField', '$bitsAllSet'), ('stage', '$merge'),
@@ -316,7 +355,7 @@ def run(ctx, proof, driver_ok):
                                               'call')})
     return {
         'evaluations': meta['calls'] + sum(e['calls'] for e in extra_entries) + 2 * len(
-            [e for e in opts if e['disp'] != 'unprobed']) + switch_checks,
+            [e for e in opts if e['disp'] != 'unprobed']) + len(pairs) + switch_checks,
         'distinct_nontrivial': len(nontrivial),
         'rule': RULE,
         'samples': samples,
@@ -336,6 +375,9 @@ def run(ctx, proof, driver_ok):
         'model_correspondence': model,
         'unlisted_ignored_entries': len(bad_vocab),
         'unlisted_option_failures': len(bad_opts),
+        'option_pair_entries': len(pairs),
+        'option_pair_dispositions': dict(collections.Counter(e['disp'] for e in pairs)),
+        'unlisted_option_pair_failures': len(bad_pairs),
         'regenerated_files_changed': st['changed'],
         'code_tables': {k: (len(v) if isinstance(v, list) else v) for k, v in T.items()},
     }
@@ -357,6 +399,12 @@ def replay(ctx, path):
             if out != now['disp']:
                 ctx.violation(dict(vocab_replay(now, 'correspondence broken'), model=out),
                               no_input=True)
+    elif e.get('what') == 'option-pair':
+        now = extract_options.probe_one_pair(e['cls'], e['method'], e['a'], e['b'],
+                                             e['a_opted_out'])
+        print(json.dumps(now, default=repr))
+        if now is not None:
+            judge_pairs(ctx, [now], ksilent)
     elif e.get('what') == 'option':
         now = extract_options.probe_one(e['cls'], e['method'], e['option'], e['opted_out'])
         print(json.dumps(now, default=repr))
